@@ -162,15 +162,18 @@ static int part_a(Src &s, Report &r) {
 			alias_pair = true;
 		}
 	}
-	xds::Model m;
-	for (size_t k = 0; k + 1 < st.size(); k += 2) m.feed(st[k], st[k + 1]);
-
 	CbCtx ctx;
 	vbi_xds_demux *xd = vbi_xds_demux_new(demux_cb, &ctx);
 	if (!xd) return 2;
 	bool frame_api = s.chance(1, 3);
 	r.cls(frame_api ? "A:feed_frame" : "A:feed");
+	// one case in six resets the demultiplexer somewhere in the stream (as after a channel change): every packet in progress is forgotten
+	size_t reset_at = (size_t) -1;
+	if (s.chance(1, 6) && st.size() >= 4) { reset_at = 2 * (size_t) s.pick((uint32_t) (st.size() / 2)); r.cls("A:reset-in-the-stream"); }
+	xds::Model m;
+	for (size_t k = 0; k + 1 < st.size(); k += 2) { if (k == reset_at) m.reset(); m.feed(st[k], st[k + 1]); }
 	for (size_t k = 0; k + 1 < st.size(); k += 2) {
+		if (k == reset_at) vbi_xds_demux_reset(xd);
 		if (frame_api) {
 			vbi_sliced sl[3]; memset(sl, 0, sizeof sl);
 			sl[0].id = VBI_SLICED_CAPTION_525; sl[0].line = 21; sl[0].data[0] = 0x94; sl[0].data[1] = 0x2C;	// field 1: ignored
